@@ -21,6 +21,12 @@ structure Inv where
   kwargs : Json
 deriving Repr, Inhabited
 
+/-- the call tree of a build: what was called, with what outcome -/
+inductive CallNode where
+  | mk (fname : String) (target : Option Path) (args kwargs : Json) (status : String)
+      (children : List CallNode)
+deriving Inhabited
+
 structure SpecSt where
   fs : FS
   cacheFile : Path
@@ -96,12 +102,16 @@ def bfFinish (s : SpecSt) (path : Path) (made : List Path) (r : CallRes) : CallR
 
 /-- run a build function from scratch.  `target` is the file the innermost enclosing
     `build_file` body is responsible for writing. -/
-def run : Prog → Option Path → SpecSt → CallRes × SpecSt
+def statusOf : CallRes → String
+  | .ok _ => "ok"
+  | .error _ => "raised"
+
+def run : Prog → Option Path → SpecSt → CallRes × SpecSt × List CallNode
   | .ret v, _, s =>
     match sanitize v with
-    | some j => (.ok j, s)
-    | none => (.error .typeErr, s)
-  | .raise e, _, s => (.error e, s)
+    | some j => (.ok j, s, [])
+    | none => (.error .typeErr, s, [])
+  | .raise e, _, s => (.error e, s, [])
   | .query q k, t, s => run (k (View.answer s.dirSize (visible s) q)) t s
   | .write b k, t, s =>
     match t with
@@ -109,20 +119,26 @@ def run : Prog → Option Path → SpecSt → CallRes × SpecSt
     | none => run k t s
   | .buildFile path _ fname args kwargs body k, t, s =>
     match bfSetup s path with
-    | .error e => run (k (.error e)) t s
+    | .error e =>
+      let (r, s', tr) := run (k (.error e)) t s
+      (r, s', .mk fname (some path) args kwargs ("setup:" ++ e.cls) [] :: tr)
     | .ok (s1, made) =>
       let s1 := { s1 with invLog := ⟨fname, some path, args, kwargs⟩ :: s1.invLog }
-      let (r, s2) := run body (some path) s1
+      let (r, s2, trb) := run body (some path) s1
       let (r', s3) := bfFinish s2 path made r
-      run (k r') t s3
+      let (r'', s4, tr) := run (k r') t s3
+      (r'', s4, .mk fname (some path) args kwargs (statusOf r') trb :: tr)
   | .subbuild fname args kwargs body k, t, s =>
     let key := subKey fname args kwargs
-    if s.claimedSubs.any (heq key) then run (k (.error (.runtime .dupSub))) t s
+    if s.claimedSubs.any (heq key) then
+      let (r, s', tr) := run (k (.error (.runtime .dupSub))) t s
+      (r, s', .mk fname none args kwargs "setup:RuntimeError" [] :: tr)
     else
       let s1 := { s with claimedSubs := key :: s.claimedSubs,
                          invLog := ⟨fname, none, args, kwargs⟩ :: s.invLog }
-      let (r, s2) := run body none s1
-      run (k r) t s2
+      let (r, s2, trb) := run body none s1
+      let (r', s3, tr) := run (k r) t s2
+      (r', s3, .mk fname none args kwargs (statusOf r) trb :: tr)
 
 end Spec
 
@@ -160,6 +176,7 @@ structure ApiOut where
   world : World
   invLog : List Inv := []
   obligation : Bool := false
+  trace : List CallNode := []
 deriving Inhabited
 
 namespace Spec
@@ -180,13 +197,19 @@ def build (w : World) (cf : Path) (buildName : String) (root : Prog) : ApiOut :=
     let fs0 := preClean w.fs cf old
     let s0 : SpecSt := { fs := fs0, cacheFile := cf, dirSize := w.dirSize, clock := w.clock }
     match dirsToMake (visible s0) cf cf.dropLast with
-    | .error e => { res := .error (.os e), world := w }
+    | .error e =>
+      { res := .error (.os e),
+        world := { w with fs := mkdirs w.fs (old.createdDirs.mergeSort (fun a b => a.length ≤ b.length)) } }
     | .ok cds =>
       let s1 := { s0 with fs := mkdirs s0.fs cds }
-      let (r, s2) := run root none s1
+      let (r, s2, tr) := run root none s1
       match r with
-      | .error e => { res := .error e, world := { w with clock := s2.clock },
-                      invLog := s2.invLog.reverse, obligation := s2.obligation }
+      | .error e =>
+        -- roll back: the pre-build tree; the directories the previous build recorded as created
+        -- reappear (the latitude C02 grants; `_create_dirs`)
+        let fsR := mkdirs w.fs (old.createdDirs.mergeSort (fun a b => a.length ≤ b.length))
+        { res := .error e, world := { w with fs := fsR, clock := s2.clock },
+                      invLog := s2.invLog.reverse, obligation := s2.obligation, trace := tr }
       | .ok v =>
         let created := dedup (s2.createdDirs.reverse ++ cds)
         let rec_ : Rec := { buildName := buildName, outputs := s2.outputs.reverse,
@@ -196,7 +219,7 @@ def build (w : World) (cf : Path) (buildName : String) (root : Prog) : ApiOut :=
         { res := .ok v,
           world := { w with fs := fs', recs := (n, rec_) :: w.recs, nextSerial := n + 1,
                             clock := s2.clock },
-          invLog := s2.invLog.reverse, obligation := s2.obligation }
+          invLog := s2.invLog.reverse, obligation := s2.obligation, trace := tr }
   match w.cacheState cf with
   | .isDir => refuse (.os .isADir)
   | .corrupt => refuse (.runtime .corrupt)
